@@ -183,7 +183,8 @@ def check(run, M, tier):
                             crop_term = T.sub(T.const(1), T.dec(ca[2][0]))
                             crop_ok = True
             elif mname is not None and idx_meas is None and any(isinstance(c, ast.Call) and (getattr(c.func, "attr", None) == "sum" or getattr(c.func, "id", None) == "sum")
-                                                                and any(isinstance(x, ast.Name) and x.id == mname for a_ in c.args for x in ast.walk(a_))
+                                                                and any(isinstance(x, ast.Name) and x.id == mname
+                                                                        for a_ in list(c.args) + ([c.func.value] if isinstance(c.func, ast.Attribute) else []) for x in ast.walk(a_))
                                                                 for c in ast.walk(st_)):
                 idx_meas = i_
         okg = crop_ok and want_r is not None and isinstance(crop_term, T.Poly) and T.eq(crop_term, want_r)
